@@ -549,8 +549,9 @@ SESSION_CORPUS = [
     # scaled and unscaled calls mixed: the marker is on the scale of the data log likelihood
     {'names': ['b'], 'name0': 'm', 'ops': [
         {'k': 'eval', 'x': [0.75], 'scaled': True, 'hessian': False, 'bhhh': False},
-        {'k': 'eval', 'x': [-0.8], 'scaled': False, 'hessian': False, 'bhhh': False},
-        {'k': 'eval', 'x': [-0.25], 'scaled': True, 'hessian': False, 'bhhh': False}]},
+        {'k': 'eval', 'x': [0.25], 'scaled': False, 'hessian': False, 'bhhh': False},
+        {'k': 'eval', 'x': [0.5], 'scaled': True, 'hessian': False, 'bhhh': False},
+        {'k': 'eval', 'x': [-0.8], 'scaled': False, 'hessian': False, 'bhhh': False}]},
     {'names': ['b10', 'b2'], 'name0': 'm', 'ops': [
         {'k': 'eval', 'x': [0.1, -0.8], 'scaled': False, 'hessian': False, 'bhhh': True},
         {'k': 'eval', 'x': [0.5, 0.5], 'scaled': True, 'hessian': True, 'bhhh': False, 'aslist': True},
@@ -817,7 +818,7 @@ def check(ctx) -> Result:
     for c in SESSION_CORPUS:
         check_session(ctx, res, c['names'], c['name0'], c['ops'])
         res.tally('corpus')
-    for _ in range(ctx.n(110, 3000)):
+    for _ in range(ctx.n(110, 2000)):
         if len(res.violations) > 3:
             break
         k = rng.randint(1, 3)
